@@ -32,7 +32,9 @@ func genC16A(r *h.Rng, tier string, idx int) *h.Plan {
 	p.Cfg["pause_ns"] = int64(time.Duration(r.Range(1, 5)) * time.Second)
 	n := r.Range(4, 16)
 	sleep := func(lo, hi int) {
-		d := time.Duration(r.Range(lo, hi))*time.Millisecond + time.Duration(2*r.Range(1, 400)+1)*time.Nanosecond*1000
+		// each operation gets its own sub-millisecond residue (2 us more than
+		// the previous one): operations never coincide with each other's due times
+		d := time.Duration(r.Range(lo, hi))*time.Millisecond + 2*time.Microsecond
 		p.Ops = append(p.Ops, h.Op{K: "sleep", N: int64(d)})
 	}
 	sleep(1, 900)
@@ -233,6 +235,16 @@ func execC16A(t *testing.T, plan *h.Plan, trace bool) *h.Result {
 				bcastSus = false
 				localSus = false
 				markSus()
+			}
+			switch op.K {
+			case "suspend", "resume", "bsuspend", "bresume":
+				// let the loop take this command before anything else happens: two
+				// things ready at once in its select would be picked at random by
+				// the Go runtime, which the plain build cannot pin
+				synctestSettle()
+			case "pause":
+				time.Sleep(pauseDur + time.Millisecond)
+				synctestSettle()
 			}
 			if trace {
 				tr = append(tr, fmt.Sprintf("[+%v] op %d: %s", time.Since(start), i, op.String()))
